@@ -20,7 +20,7 @@ REDACTED = "[REDACTED]"
 def load_macros(ctx):
     """[(name, raw definition)] of every registered extension + the table kfl built at init."""
     rc, out = ctx.vh("vh-kfltext", ["macros"])
-    o = json.loads(out.strip().splitlines()[-1])
+    o = json.loads(out.strip().split("\n")[-1])
     return [(m["name"], m["def"]) for m in o["extensions"]], o["table"]
 
 
